@@ -1,5 +1,5 @@
 // Kani harnesses for rules/eval.rs
-#![allow(dead_code, unused_imports)]
+#![allow(dead_code, unused_imports, unused_variables)]
 use super::*;
 
 #[cfg(verif_replay)]
@@ -13,3 +13,242 @@ macro_rules! lib_only {
         }
     };
 }
+
+pub(crate) fn fmt_stub(_args: std::fmt::Arguments<'_>) -> String {
+    String::new()
+}
+
+pub(crate) fn regex_new_stub(_re: &str) -> fancy_regex::Result<fancy_regex::Regex> {
+    Err(fancy_regex::Error::ParseError(0, fancy_regex::ParseError::InvalidRepeat))
+}
+
+// ---------------------------------------------------------------------------------------------
+// a recording evaluation context: the real RecordTracer/EvalContext traits, implemented by a flat event log
+// ---------------------------------------------------------------------------------------------
+pub(crate) const LOG: usize = 24;
+
+#[derive(Clone, Copy, PartialEq)]
+pub(crate) struct Ev {
+    pub depth: u8,  // depth of the closed record (1 = child of the record open at harness entry)
+    pub kind: u8,   // 0 leaf (TypeBlock), 1 Disjunction, 2 other
+    pub status: u8, // 0 PASS 1 FAIL 2 SKIP
+}
+
+pub(crate) struct MockCtx {
+    pub depth: u8,
+    pub n: usize,
+    pub log: [Ev; LOG],
+    pub underflow: bool,
+}
+
+impl MockCtx {
+    pub(crate) fn new() -> Self {
+        MockCtx { depth: 0, n: 0, log: [Ev { depth: 0, kind: 0, status: 0 }; LOG], underflow: false }
+    }
+}
+
+pub(crate) fn st(s: Status) -> u8 {
+    match s {
+        Status::PASS => 0,
+        Status::FAIL => 1,
+        Status::SKIP => 2,
+    }
+}
+
+impl<'value> RecordTracer<'value> for MockCtx {
+    fn start_record(&mut self, _context: &str) -> Result<()> {
+        self.depth += 1;
+        Ok(())
+    }
+    fn end_record(&mut self, _context: &str, record: RecordType<'value>) -> Result<()> {
+        if self.depth == 0 {
+            self.underflow = true;
+        } else {
+            let (kind, status) = match &record {
+                RecordType::TypeBlock(s) => (0, st(*s)),
+                RecordType::Disjunction(b) => (1, st(b.status)),
+                _ => (2, 0),
+            };
+            if self.n < LOG {
+                self.log[self.n] = Ev { depth: self.depth, kind, status };
+                self.n += 1;
+            }
+            self.depth -= 1;
+        }
+        std::mem::forget(record);
+        Ok(())
+    }
+}
+
+impl<'value, 'loc: 'value> EvalContext<'value, 'loc> for MockCtx {
+    fn query(&mut self, _query: &'value [QueryPart<'loc>]) -> Result<Vec<QueryResult>> {
+        Ok(vec![])
+    }
+    fn find_parameterized_rule(&mut self, _rule_name: &str) -> Result<&'value ParameterizedRule<'loc>> {
+        Err(Error::MissingValue(String::new()))
+    }
+    fn root(&mut self) -> Rc<PathAwareValue> {
+        unreachable!()
+    }
+    fn rule_status(&mut self, _rule_name: &'value str) -> Result<Status> {
+        Err(Error::MissingValue(String::new()))
+    }
+    fn resolve_variable(&mut self, _variable_name: &'value str) -> Result<Vec<QueryResult>> {
+        Ok(vec![])
+    }
+    fn add_variable_capture_key(&mut self, _variable_name: &'value str, _key: Rc<PathAwareValue>) -> Result<()> {
+        Ok(())
+    }
+}
+
+// ---------------------------------------------------------------------------------------------
+// U-cnf: eval_conjunction_clauses on the real generic code; leaves forced to PASS / FAIL / SKIP / Err
+// ---------------------------------------------------------------------------------------------
+
+/// leaf evaluator obeying the clause discipline (clause_post): one record, status == returned status
+fn leaf<'v>(code: &'v u8, ctx: &mut dyn EvalContext<'v, 'v>) -> Result<Status> {
+    if *code == 3 {
+        return Err(Error::MissingValue(String::new()));
+    }
+    let s = match *code {
+        0 => Status::PASS,
+        1 => Status::FAIL,
+        _ => Status::SKIP,
+    };
+    ctx.start_record("")?;
+    ctx.end_record("", RecordType::TypeBlock(s))?;
+    Ok(s)
+}
+
+/// the documented semantics, written independently of the code:
+/// line: PASS iff one alternative passed, FAIL iff none passed and one failed, else SKIP (alternatives after the
+/// first PASS are not evaluated; the first error in evaluation order aborts); block: FAIL iff one line failed,
+/// PASS iff none failed and one passed, else SKIP.
+/// returns (result: 0..2 or 3 = error, number of leaves evaluated)
+fn spec_cnf(lines: &[[u8; 3]; 3], nlines: usize, lens: &[usize; 3], expect: &mut [Ev; LOG], ne: &mut usize) -> u8 {
+    let mut any_fail = false;
+    let mut any_pass = false;
+    let mut i = 0;
+    while i < nlines {
+        let mut lp = false;
+        let mut lf = false;
+        let mut j = 0;
+        let mut err = false;
+        while j < lens[i] {
+            let c = lines[i][j];
+            if c == 3 {
+                err = true;
+                break;
+            }
+            expect[*ne] = Ev { depth: if lens[i] > 1 { 2 } else { 1 }, kind: 0, status: c };
+            *ne += 1;
+            if c == 0 {
+                lp = true;
+                break;
+            }
+            if c == 1 {
+                lf = true;
+            }
+            j += 1;
+        }
+        if err {
+            if lens[i] > 1 {
+                expect[*ne] = Ev { depth: 1, kind: 1, status: 1 };
+                *ne += 1;
+            }
+            return 3;
+        }
+        let ls = if lp { 0 } else if lf { 1 } else { 2 };
+        if lens[i] > 1 {
+            expect[*ne] = Ev { depth: 1, kind: 1, status: ls };
+            *ne += 1;
+        }
+        if ls == 0 {
+            any_pass = true;
+        }
+        if ls == 1 {
+            any_fail = true;
+        }
+        i += 1;
+    }
+    if any_fail { 1 } else if any_pass { 0 } else { 2 }
+}
+
+/// one concrete shape (number of lines, alternatives per line); the 4^(#leaves) leaf codes are symbolic
+fn cnf_shape(nlines: usize, lens: [usize; 3]) {
+    let mut codes = [[0u8; 3]; 3];
+    let mut conj: Vec<Vec<u8>> = Vec::with_capacity(3);
+    let mut i = 0;
+    while i < nlines {
+        let mut line: Vec<u8> = Vec::with_capacity(3);
+        let mut j = 0;
+        while j < lens[i] {
+            let c: u8 = kani::any();
+            kani::assume(c <= 3);
+            codes[i][j] = c;
+            line.push(c);
+            j += 1;
+        }
+        conj.push(line);
+        i += 1;
+    }
+    let mut ctx = MockCtx::new();
+    let res = eval_conjunction_clauses(&conj, &mut ctx, leaf);
+    let mut expect = [Ev { depth: 0, kind: 0, status: 0 }; LOG];
+    let mut ne = 0usize;
+    let want = spec_cnf(&codes, nlines, &lens, &mut expect, &mut ne);
+    match &res {
+        Ok(s) => kani::assert(want == st(*s), "CNF status: block FAIL iff a line failed, PASS iff none failed and one passed, else SKIP"),
+        Err(_) => kani::assert(want == 3, "error exactly when a leaf evaluated in order raises one"),
+    }
+    kani::assert(!ctx.underflow, "no end_record without start_record");
+    kani::assert(ctx.depth == 0, "records balanced (also on the error path)");
+    kani::assert(ctx.n == ne, "one record per evaluated leaf, one Disjunction record per multi-alternative line");
+    let mut k = 0;
+    while k < LOG {
+        if k < ne {
+            kani::assert(ctx.log[k] == expect[k], "record sequence: leaves in evaluation order, Disjunction status = line status");
+        }
+        k += 1;
+    }
+    std::mem::forget(res);
+    std::mem::forget(conj);
+}
+
+macro_rules! cnf_harness {
+    ($name:ident, $nlines:expr, $first_lo:expr, $first_hi:expr, $max:expr) => {
+        #[cfg_attr(kani, kani::proof)]
+        #[cfg_attr(kani, kani::stub(alloc::fmt::format, fmt_stub))]
+        #[cfg_attr(verif_replay, test)]
+        fn $name() {
+            lib_only!();
+            let mut a = $first_lo;
+            while a <= $first_hi {
+                let mut b = 1usize;
+                while b <= (if $nlines >= 2 { $max } else { 1 }) {
+                    let mut c = 1usize;
+                    while c <= (if $nlines >= 3 { $max } else { 1 }) {
+                        cnf_shape($nlines, [a, b, c]);
+                        c += 1;
+                    }
+                    b += 1;
+                }
+                a += 1;
+            }
+        }
+    };
+}
+// empty conjunction
+#[cfg_attr(kani, kani::proof)]
+#[cfg_attr(kani, kani::stub(alloc::fmt::format, fmt_stub))]
+#[cfg_attr(verif_replay, test)]
+fn k_cnf_0() {
+    lib_only!();
+    cnf_shape(0, [1, 1, 1]);
+}
+cnf_harness!(k_cnf_1, 1usize, 1usize, 3usize, 3usize);   // 1 line, 1..3 alternatives
+cnf_harness!(k_cnf_2_22, 2usize, 1usize, 2usize, 2usize); // 2 lines, <= 2 alternatives each
+cnf_harness!(k_cnf_2_33, 2usize, 1usize, 3usize, 3usize); // 2 lines, <= 3 alternatives each
+cnf_harness!(k_cnf_3_a1, 3usize, 1usize, 1usize, 3usize); // 3 lines, first line 1 alternative, others <= 3
+cnf_harness!(k_cnf_3_a2, 3usize, 2usize, 2usize, 3usize);
+cnf_harness!(k_cnf_3_a3, 3usize, 3usize, 3usize, 3usize);
